@@ -12,6 +12,9 @@ CONSTANTS
   MaxWaits = 2
   HistMax = 0
   Emit = FALSE
+  MaxAtt = 2
+  Crashes = TRUE
+  StartBy = 14
 VIEW View
 INVARIANTS TypeOK InvExclusion InvHolderHasFile InvNotStale InvFresh
 CHECK_DEADLOCK FALSE
